@@ -68,7 +68,12 @@ def _name_range(i, j):
     vals = ([v, w] + [4])[:len(cells)] if len(cells) == 3 else [v, w]
     c = M.norm(M.build(T).calculate(inputs={rng: [[x] for x in vals]}))
     d = M.norm(M.build(T).calculate(inputs={M.P + n: x for n, x in zip(cells, vals)}))
-    return c == d                     # through a multi-cell range of the model == to its cells
+    if c != d:
+        return False                  # through a multi-cell range of the model == to its cells
+    blk = [[v, 7], [w, v]]
+    e = M.norm(M.build(T).calculate(inputs={M.BLOCK: blk}))
+    f = M.norm(M.build(T).calculate(inputs={M.P + 'H1': v, M.P + 'I1': 7, M.P + 'H2': w, M.P + 'I2': v}))
+    return e == f                     # a two-dimensional block == its four cells, each at its own place
 
 
 def name_and_range_ok(i0: bool, i1: bool, i2: bool, j0: bool, j1: bool, j2: bool) -> bool:
